@@ -666,15 +666,12 @@ fn gen_fn(ctx: &mut Ctx, fs_: &FnSpec) -> R<()> {
         let canon: Vec<(Option<String>, String)> = ls.iter().map(|x| match x.split_once(':') { Some((k, n)) => (Some(k.to_string()), n.to_string()), None => (None, x.clone()) }).collect();
         let src = &v.lets_k;
         let (m, n) = (canon.len(), src.len());
+        // (1) identifiers that kept their name: longest common subsequence on names (same binding kind preferred)
         let score = |i: usize, j: usize| -> i64 {
-            let kind_ok = canon[i].0.as_ref().map(|k| *k == src[j].1).unwrap_or(true);
-            if canon[i].1 == src[j].0 {
-                if kind_ok { 4 } else { 3 }
-            } else if kind_ok {
-                1
-            } else {
-                -1
+            if canon[i].1 != src[j].0 {
+                return -1;
             }
+            if canon[i].0.as_ref().map(|k| *k == src[j].1).unwrap_or(true) { 4 } else { 3 }
         };
         let mut dp = vec![vec![0i64; n + 1]; m + 1];
         for i in (0..m).rev() {
@@ -687,11 +684,12 @@ fn gen_fn(ctx: &mut Ctx, fs_: &FnSpec) -> R<()> {
                 dp[i][j] = best;
             }
         }
+        let mut pairs: Vec<(usize, usize)> = vec![];
         let (mut i, mut j) = (0, 0);
         while i < m && j < n {
             let sc = score(i, j);
             if sc > 0 && dp[i][j] == sc + dp[i + 1][j + 1] {
-                aligned.push((canon[i].1.clone(), src[j].0.clone(), src[j].2));
+                pairs.push((i, j));
                 i += 1;
                 j += 1;
             } else if dp[i][j] == dp[i][j + 1] {
@@ -700,6 +698,43 @@ fn gen_fn(ctx: &mut Ctx, fs_: &FnSpec) -> R<()> {
                 i += 1;
             }
         }
+        let c_matched: Vec<bool> = (0..m).map(|i| pairs.iter().any(|p| p.0 == i)).collect();
+        let s_matched: Vec<bool> = (0..n).map(|j| pairs.iter().any(|p| p.1 == j)).collect();
+        for (i, j) in &pairs {
+            aligned.push((canon[*i].1.clone(), src[*j].0.clone(), src[*j].2));
+        }
+        // (2) renamed identifiers, gap by gap (between two kept names): a contract name that no longer occurs freely in the body
+        // is paired with a body identifier the contract does not know, in order, PROVIDED the gap holds equally many of both for
+        // that binding kind -- anything less clear-cut is left alone (a wrong guess could turn into a wrong verdict)
+        let mut bounds: Vec<(usize, usize)> = vec![(0, 0)];
+        for (i, j) in &pairs {
+            bounds.push((*i + 1, *j + 1));
+        }
+        for (g, (ci, sj)) in bounds.iter().enumerate() {
+            let (ce, se) = if g < pairs.len() { (pairs[g].0, pairs[g].1) } else { (m, n) };
+            let elig_c: Vec<usize> = (*ci..ce).filter(|i| !c_matched[*i] && !(0..n).any(|j| !s_matched[j] && src[j].0 == canon[*i].1)).collect();
+            let elig_s: Vec<usize> = (*sj..se).filter(|j| !s_matched[*j] && !canon.iter().any(|c| c.1 == src[*j].0)).collect();
+            let mut kinds: Vec<String> = elig_s.iter().map(|j| src[*j].1.clone()).collect();
+            kinds.sort();
+            kinds.dedup();
+            for k in kinds {
+                let cs_: Vec<usize> = elig_c.iter().cloned().filter(|i| canon[*i].0.as_ref().map(|x| *x == k).unwrap_or(false)).collect();
+                let ss_: Vec<usize> = elig_s.iter().cloned().filter(|j| src[*j].1 == k).collect();
+                if !cs_.is_empty() && cs_.len() == ss_.len() {
+                    for (i, j) in cs_.iter().zip(ss_.iter()) {
+                        aligned.push((canon[*i].1.clone(), src[*j].0.clone(), src[*j].2));
+                    }
+                }
+            }
+            // contract names without a stated kind: only a gap that is a pure rename as a whole
+            let cs_: Vec<usize> = elig_c.iter().cloned().filter(|i| canon[*i].0.is_none()).collect();
+            if !cs_.is_empty() && cs_.len() == elig_c.len() && cs_.len() == elig_s.len() {
+                for (i, j) in cs_.iter().zip(elig_s.iter()) {
+                    aligned.push((canon[*i].1.clone(), src[*j].0.clone(), src[*j].2));
+                }
+            }
+        }
+        aligned.sort_by_key(|a| a.2);
     }
     let fix_at = |t: &str, pos: usize| -> String {
         let mut map = ren.clone();
@@ -895,6 +930,10 @@ fn gen_fn(ctx: &mut Ctx, fs_: &FnSpec) -> R<()> {
     }
     // closures (E8)
     for (k, head) in &fs_.closure_heads {
+        if v.closures.get(k - 1).is_none() && fs_.closures.get(k).map(|c| c.is_empty()).unwrap_or(true) {
+            // a typed head only (no clauses hang on it) for a closure that is no longer there: nothing to rewrite
+            continue;
+        }
         let (o1, bs, be, head_end, names, is_block) = v.closures.get(k - 1).cloned().ok_or(Fail(format!("anchor lost: {} has no closure #{k}", fs_.path)))?;
         // check parameter names
         let fake = format!("fn f() {{ let _c = {} {{}}; }}", fix(head));
